@@ -290,6 +290,10 @@ func (r *FileRestorer) updateImports() error {
 			// no need to resolve the path of a package that has an alias
 			continue
 		}
+		if path == "C" {
+			// the cgo pseudo-package is not a package a resolver could know; its name is always "C"
+			continue
+		}
 		name, err := r.Resolver.ResolvePackage(path)
 		if err != nil {
 			return fmt.Errorf("could not resolve package %s: %w", path, err)
